@@ -495,6 +495,32 @@ func (m optModel) predictions() *Failure {
 	if (e1 == nil) != (e2 == nil) || !valEqual(map[string]interface{}(s1), map[string]interface{}(s2)) {
 		return failf("seq-isolation", "NewMapXmlSeq depends on attribute prefix / lower-case / simple-as-map / seq-num / skip function under %+v:\n %#v\n %#v", m, s1, s2)
 	}
+	// ... and neither does the sequence ENCODER: element names that begin with an attribute prefix are ordinary elements
+	seqEnc := func() string {
+		ms := mxj.MapSeq{"doc": map[string]interface{}{
+			"#attr":  map[string]interface{}{"_a": map[string]interface{}{"#text": "1", "#seq": 0}, "attr_b": map[string]interface{}{"#text": "2", "#seq": 1}},
+			"_id":    map[string]interface{}{"#text": "5", "#seq": 0},
+			"attr_x": map[string]interface{}{"#seq": 1, "sub": map[string]interface{}{"#text": "s", "#seq": 0}},
+			"-h":     map[string]interface{}{"#text": "6", "#seq": 2},
+			"@at":    map[string]interface{}{"#text": "7", "#seq": 3},
+			"name":   []interface{}{map[string]interface{}{"#text": "x", "#seq": 4}, map[string]interface{}{"#text": "y", "#seq": 5, "_n": map[string]interface{}{"#text": "z", "#seq": 0}}},
+		}}
+		// written with the default key prefix; skip when another one is in force (the reserved keys then differ)
+		x, err := ms.Xml()
+		xi, err2 := ms.XmlIndent("", " ")
+		return fmt.Sprintf("%s|%v|%s|%v", x, err, xi, err2)
+	}
+	if kp == "#" {
+		q1 := seqEnc()
+		mxj.SetAttrPrefix("-")
+		mxj.CoerceKeysToLower(false)
+		q2 := seqEnc()
+		mxj.SetAttrPrefix(ap)
+		mxj.CoerceKeysToLower(m.Lower)
+		if q1 != q2 {
+			return failf("seq-isolation", "MapSeq.Xml depends on the attribute prefix / lower-case switch under %+v:\n %s\n %s", m, q1, q2)
+		}
+	}
 	// its text key follows the key prefix, snake-case is applied, nothing is lower-cased
 	if e1 == nil {
 		root := "Ro-ot"
